@@ -19,6 +19,7 @@ import (
 	"sync"
 
 	"filippo.io/mldsa"
+	"filippo.io/sunlight/internal/ctlog"
 	"filippo.io/sunlight/internal/witness"
 	"filippo.io/torchwood"
 	"golang.org/x/mod/sumdb/note"
@@ -160,6 +161,8 @@ type WitEnv struct {
 	CaseInfo   func() any
 	byKey      map[[32]byte]*WitLog
 	byMirror   map[[32]byte]*WitLog
+	// BackendOverride replaces the in-memory object store (e.g. a LocalBackend).
+	BackendOverride ctlog.Backend
 	// OnMirrorCommit is called (under the world mutex) when a write under a
 	// mirror-checkpoint key is applied.
 	OnMirrorCommit func(l *WitLog, c *Call)
@@ -203,6 +206,9 @@ func (e *WitEnv) Start() error {
 	e.In = NewInst(e.W, "witness")
 	e.Cfg = &witness.Config{Name: e.Name, KeyEd25519: e.Ed, KeyMLDSA44: e.ML, MirrorName: e.MirrorName, KeyMirror: e.MK,
 		Backend: &ObjBackend{In: e.In}, Lock: &LockBackend{In: e.In}, Log: discardLogger}
+	if e.BackendOverride != nil {
+		e.Cfg.Backend = e.BackendOverride
+	}
 	w, err := witness.NewWitness(context.Background(), e.Cfg)
 	if err != nil {
 		return err
